@@ -131,6 +131,8 @@ class ValueOps:
 
     def seqheap(self):
         st = self.st
+        if getattr(self, 'read_log', None) is not None:
+            self.read_log.add('SEQ')
         if st.seqh is None:
             st.seqh = st.decls.global_const('SEQ', '(Array Int Int)')
         return st.seqh
@@ -596,6 +598,8 @@ class ValueOps:
         if ty is None:
             raise Unsupported('attribute %s not in schema of %s' % (attr, ','.join(classes)), node)
         arr = st.heap_arr(attr)
+        if getattr(self, 'read_log', None) is not None:
+            self.read_log.add(attr)
         t = mk_select(arr, obj.term)
         sv = self.unbox(t, ty)
         if arr == st.decls.base_heap.get(attr) and getattr(self, 'alloc0', None) is not None:
@@ -614,6 +618,8 @@ class ValueOps:
     # dict heap
     def dict_heaps(self):
         st = self.st
+        if getattr(self, 'read_log', None) is not None:
+            self.read_log.add('DICT')
         if st.ddom is None:
             st.ddom = st.decls.global_const('DDOM', '(Array Int (Array Val Bool))')
             st.dval = st.decls.global_const('DVAL', '(Array Int (Array Val Val))')
